@@ -14,8 +14,8 @@ BASELINE = (
 # id -> (technique, level text, level note, design ref)
 EXPL = "held on the executions observed (counts in the evidence), not a proof"
 CHECKS = {
-    "C01": ("exact-rational execution of the kernel's code object + residual oracle; compiled-vs-exact float64 monitor classified by condition number; settrace state tap on the LDL' pivots",
-            "The unchanged code object of ws2d is executed on Fractions and the residual (W+lam D'D)z - Wy, assembled from the definition, must be exactly zero for every executed (n, y, w, lam): all 0/1 weight patterns for n=4..10 and structured/random cases to n=150; the compiled float64 result is compared with the exact solution (1e-6) up to n=400. " + EXPL,
+    "C01": ("exact-rational execution of the kernel's code object + residual oracle; compiled-vs-exact float64 monitor classified by condition number; settrace state tap on the LDL' pivots; 120-digit (mpmath) execution of the same code object with residual oracle for long axes",
+            "The unchanged code object of ws2d is executed on Fractions and the residual (W+lam D'D)z - Wy, assembled from the definition, must be exactly zero for every executed (n, y, w, lam): all 0/1 weight patterns for n=4..10 and structured/random cases to n=150; the compiled float64 result is compared with the exact solution (1e-6) up to n=400. For n = 512..4000 the code object runs on 120-digit floats and the residual must vanish to 80 digits. " + EXPL,
             "Fraction arithmetic; numpy eigvalsh for the condition number used to classify exceedances (known finding C01:ill-conditioned); identity is per executed case, not for symbolic n", "DESIGN.md §3 C01"),
     "C02": ("metamorphic pair monitor on the real kernels (placeholder re-encodings incl. NaN/inf) + threshold classes + gap-fill oracle",
             "Each (series, mask) is run through all nine smoother configurations under 4-9 placeholder encodings; band and lambda must be identical, gap cells must carry the independently solved curve, and both sides of each valid-count threshold are observed. " + EXPL,
@@ -26,7 +26,7 @@ CHECKS = {
     "C04": ("boundary monitor: midpoint/optimality oracles (replica + dense V-curve), self-consistency against the real fixed-lambda kernels, grid-choice differential incl. prange driver",
             "Reported lambda must be a grid midpoint, minimise the recomputed V-curve (two solvers, tie rules), the band must equal ws2dgu/ws2dpgu at that lambda bit-for-bit, and ws2doptvplc / ws2doptvplc_tyx must use the documented grid for every lc incl. NaN and 0.5+ulp. " + EXPL,
             "criterion-degenerate cases (noise-level V-curve) only held to midpoint/self-consistency and counted", "DESIGN.md §3 C04"),
-    "C05": ("boundary monitor + settrace state tap on the interpreted kernel (MAD base, final robust weights), degenerate-input classes, compiled-vs-interpreted differential",
+    "C05": ("boundary monitor + settrace state tap on the interpreted kernel (MAD base, final robust weights), degenerate-input classes, compiled-vs-interpreted differential; broadcast screening of the real robust kernel selects rare executions for the tapped oracle",
             "Non-robust: grid membership, GCV optimality (two solvers), band == fixed-lambda kernel. Robust: lambda on grid, MAD taken over valid weighted cells (tapped), final weights finite/in [0,1]/zero on gaps/>=2 positive, band is the curve of exactly those weights, constant/linear/flat-with-spikes inputs not zeroed, compiled == interpreted. " + EXPL,
             "tap reads locals of the interpreted run of the same code object; grids restricted to lambda in 10**[-6,8] (C01 range)", "DESIGN.md §3 C05"),
     "C06": ("metamorphic pair monitors (offset, reversal, linear series) over all nine configurations with measured rounding-tie rule",
@@ -50,7 +50,7 @@ CHECKS = {
     "C12": ("configuration-sweep pair monitor (eager vs dask: chunkings x schedulers x dim orders, delay injection at the kernel boundary), pixel-permutation pairs, prange thread-count sweep on both threading layers, sys.monitoring yield injection into the lazy-compile race",
             "Every accessor operation is computed eagerly and on dask-backed data under sampled (thorough: all) combinations of y/x chunking, scheduler (synchronous, 1/2/16 threads) and dim order with values, dims, coords, declared and computed dtype compared bit for bit; kernels are delayed by seeded sleeps so blocks finish out of order (orders recorded); ws2doptvplc_tyx runs under 1..16 threads on omp and workqueue; N threads race on the first call of lazily compiled kernels with sleeps injected between the None test and the assignment, closure cell reset between rounds. " + EXPL,
             "interleavings are sampled, not enumerated; Numba's compiler lock is trusted; a refused (raising) time-chunked input is allowed", "DESIGN.md §3 C12"),
-    "C13": ("differential monitor compiled vs interpreted execution of the same code object (35 programs, all signature dtypes) + special-function differential (scipy ufuncs bit-equal, mpmath)",
+    "C13": ("differential monitor compiled vs interpreted execution of the same code object (35 programs, all signature dtypes) + special-function differential (scipy ufuncs bit-equal, mpmath) + frozen-global monitor (module globals a kernel reads and library code assigns are moved after compilation)",
             "Identical in-contract inputs go to each compiled kernel and to its own code object run by CPython with NumPy semantics (callees stay compiled); floats to 1e-9 (float32 inputs: single precision, scaled by the conditioning of the gamma fit), integers equal up to tapped rounding ties, lambdas up to tapped criterion ties; digamma/gammainc/ndtri inside nopython code are compared with scipy.special (bit-equal) and mpmath. " + EXPL,
             "shim maps Numba type names to NumPy scalars and performs the C-style cast of np.round(z,0,out); loop-bound scalars are passed as ints; log(0) domain errors of the interpreted V-curve are an excluded, counted class", "DESIGN.md §3 C13"),
     "C14": ("NUMBA_BOUNDSCHECK=1 sanitizer runs of all 35 programs on minimum/edge/random in-contract inputs + poisoned output buffers + index-recording guard arrays on the interpreted kernels",
